@@ -1403,6 +1403,24 @@ class Engine:
                     sel_override=(None if base.sel_override is None else (lambda heap, idx, facts, so=base.sel_override, start=start: so(heap, (start + idx[0],), facts))),
                     owner=base.owner,
                 )
+            if len(idxs) == base.ndim and all(isinstance(i, Sc) for i in idxs[:-1]) and isinstance(idxs[-1], SliceV) and base.sel_override is None:
+                # a[i, j, lo:hi]: the scalar indices select a row, the slice a window of it
+                terms = []
+                for d, i in enumerate(idxs[:-1]):
+                    it, inb = sem.index_term(i, base.shape[d])
+                    obl.append(("bounds", inb))
+                    terms.append(it)
+                self._par_check(base, terms, p, "read")
+                start, ln = self._fix_slice(idxs[-1], base.shape[-1], p)
+                pre = tuple(terms)
+                return ArrV(
+                    base.aid,
+                    base.dtype,
+                    (ln,),
+                    imap=lambda rest, pre=pre, start=start, bm=base.imap: bm(pre + (start + rest[0],)),
+                    readonly=base.readonly,
+                    owner=base.owner,
+                )
             raise Unsupported("array getitem with index %s" % [type(i).__name__ for i in idxs])
         raise Unsupported("getitem on %s" % type(base).__name__)
 
